@@ -90,13 +90,14 @@ int main(void) {
             free(in); free(out);
         } else if (!strcmp(op, "pledge")) {
             /* pledge <pledged|-1> <total> <chunks csv> <endmode: 0 end-with-last-chunk, 1 separate end call, 2 endStream legacy> [nbWorkers: several 512 KB jobs] */
-            long long pl = atoll(strtok(NULL, " ")); size_t total = (size_t)strtoull(strtok(NULL, " "), NULL, 10); char* cs = strtok(NULL, " "); int mode = atoi(strtok(NULL, " ")); char* wk = strtok(NULL, " "); int workers = wk ? atoi(wk) : 0;
+            long long pl = atoll(strtok(NULL, " ")); size_t total = (size_t)strtoull(strtok(NULL, " "), NULL, 10); char* cs = strtok(NULL, " "); int mode = atoi(strtok(NULL, " ")); char* wk = strtok(NULL, " "); int workers = wk ? atoi(wk) : 0; char* nf = wk ? strtok(NULL, " ") : NULL; int nofcs = nf ? atoi(nf) : 0;
             size_t ch[64]; int nc = 0, k; char* sv; char* t; unsigned char* src = (unsigned char*)malloc(total + 1); size_t cap = ZSTD_compressBound(total) + 1024;
             unsigned char* out = (unsigned char*)malloc(cap); size_t fed = 0, r = 0; ZSTD_outBuffer ob; size_t i; int failedAt = -1;
             for (i = 0; i < total; i++) src[i] = (unsigned char)(i * 31 + (i >> 7));
             for (t = strtok_r(cs, ",", &sv); t && nc < 64; t = strtok_r(NULL, ",", &sv)) ch[nc++] = (size_t)strtoull(t, NULL, 10);
             ZSTD_CCtx_reset(cctx, ZSTD_reset_session_and_parameters);
             if (workers) { ZSTD_CCtx_setParameter(cctx, ZSTD_c_nbWorkers, workers); ZSTD_CCtx_setParameter(cctx, ZSTD_c_jobSize, 524288); ZSTD_CCtx_setParameter(cctx, ZSTD_c_compressionLevel, 1); }
+            if (nofcs) ZSTD_CCtx_setParameter(cctx, ZSTD_c_contentSizeFlag, 0);     /* the pledge must be enforced whether or not it ends up in the header */
             if (pl >= 0) r = ZSTD_CCtx_setPledgedSrcSize(cctx, (unsigned long long)pl);
             ob.dst = out; ob.size = cap; ob.pos = 0;
             for (k = 0; k < nc && !ZSTD_isError(r); k++) {
@@ -223,6 +224,19 @@ int main(void) {
                 if (ZSTD_isError(r)) break; r = produced; }
             if (dd) { if (ZSTD_isError(r)) printf("err %s\n", zv_errclass(r)); else printf("ok %zu %016llx\n", produced, (unsigned long long)XXH64(out, produced, 0)); }
             ZSTD_freeDCtx(dc); ZSTD_freeDDict(dd); free(in); free(out); free(d);
+        } else if (!strcmp(op, "decabandon")) {
+            /* decabandon <hex frame A> <cut> <reset 0 session_only|1 initDStream> <hex frame B> <chunk> : feed the first <cut> bytes of A in <chunk>-byte calls, abandon it (reset), then decode B
+             * giving the decoder exactly what it asks for (its return value), one request per call -> ok <n> <xxh> hintsBeyond=<0|1> */
+            size_t na, nb; unsigned char* A = zv_unhex(strtok(NULL, " "), &na); size_t cut = (size_t)strtoull(strtok(NULL, " "), NULL, 10); int rk = atoi(strtok(NULL, " ")); unsigned char* B = zv_unhex(strtok(NULL, " "), &nb);
+            size_t chunk = (size_t)strtoull(strtok(NULL, " "), NULL, 10); size_t cap = 1 << 22; unsigned char* out = (unsigned char*)malloc(cap); size_t pos = 0, produced = 0, r = 1; int beyond = 0, guard = 0; ZSTD_DCtx* dc = ZSTD_createDCtx();
+            if (cut > na) cut = na;
+            while (pos < cut) { ZSTD_inBuffer ib; ZSTD_outBuffer ob; ib.src = A + pos; ib.size = chunk < cut - pos ? chunk : cut - pos; ib.pos = 0; ob.dst = out; ob.size = cap; ob.pos = 0; r = ZSTD_decompressStream(dc, &ob, &ib); if (ZSTD_isError(r) || ib.pos == 0) break; pos += ib.pos; }
+            if (rk) ZSTD_initDStream(dc); else ZSTD_DCtx_reset(dc, ZSTD_reset_session_only);
+            pos = 0; r = ZSTD_FRAMEHEADERSIZE_MAX > nb ? nb : 5;
+            while (guard++ < 1000000 && pos < nb) { ZSTD_inBuffer ib; ZSTD_outBuffer ob; size_t want = r; if (want > nb - pos) { beyond = 1; want = nb - pos; }
+                ib.src = B + pos; ib.size = want; ib.pos = 0; ob.dst = out + produced; ob.size = cap - produced; ob.pos = 0; r = ZSTD_decompressStream(dc, &ob, &ib); if (ZSTD_isError(r)) break; pos += ib.pos; produced += ob.pos; if (r == 0) break; if (ib.pos == 0 && ob.pos == 0) break; }
+            if (ZSTD_isError(r)) printf("err %s\n", zv_errclass(r)); else printf("%s %zu %016llx hintsBeyond=%d consumed=%zu\n", r == 0 ? "ok" : "unfinished", produced, (unsigned long long)XXH64(out, produced, 0), beyond, pos);
+            ZSTD_freeDCtx(dc); free(A); free(B); free(out);
         } else if (!strcmp(op, "dechint")) {
             /* dechint <cap> <hex> <outchunk> : feed ZSTD_decompressStream EXACTLY the number of bytes it asks for; input is followed by garbage
              * prints the hint sequence summary: ok <produced> <hash> consumed=<n> hints=<h1,h2,...(first 12)> overask=<0|1> */
